@@ -330,8 +330,12 @@ theorem free01_negate : ∀ p, Free01 p → Free01 (negate p)
         | leaf => simp [Free01]
         | node => simp [isLeaf] at this
       have hatoms : ∀ a ∈ (sortById ks).filter (·.isLeaf), a.isLeaf = true := fun a ha => (List.mem_filter.1 ha).2
-      have hnb : (if m.gen then (⟨0, 1⟩ : Bnd) else b).lo = 0 ∧ (if m.gen then (⟨0, 1⟩ : Bnd) else b).hi = 1 := by
-        split <;> simp [hb]
+      have hnb : (if m.gen then (⟨0, 1⟩ : Bnd) else if b.lo = b.hi then ⟨1 - b.hi, 1 - b.lo⟩ else b).lo = 0 ∧
+          (if m.gen then (⟨0, 1⟩ : Bnd) else if b.lo = b.hi then ⟨1 - b.hi, 1 - b.lo⟩ else b).hi = 1 := by
+        have hne : ¬ b.lo = b.hi := by omega
+        split
+        · simp
+        · simp [hne, hb]
       simp only [negate]
       split
       · split
